@@ -357,6 +357,31 @@ def ulpscale_pairs(n, es, rng, count):
             out.append((A, B) if rng.getrandbits(1) else (B, A))
     return out[:count]
 
+def neartie_sqrt(n, es, rng, count):
+    """inputs x whose exact square root lies next to a rounding boundary of the n-bit posit: x = (midpoint of two adjacent
+    posits z, z+1)^2 rounded to the format, and its neighbours.  A small error anywhere in the root computation (table entry,
+    truncated Newton step, remainder correction) flips the rounding of exactly these inputs.  z is drawn with uniform
+    significands at small scales (where fractions are longest) and structured otherwise."""
+    import sys, os
+    sys.path.insert(0, os.path.join(os.path.dirname(os.path.dirname(os.path.abspath(__file__))), 'tools'))
+    from pyspec import to_rat, rnd
+    half = 1 << (n - 1)
+    out = []
+    while len(out) < count:
+        t = rng.randint(0, 3)
+        if t <= 1:
+            e = rng.randint(-6, 6)
+            z = rnd(n, es, (1 + __import__('fractions').Fraction(rng.getrandbits(40), 1 << 40)) * __import__('fractions').Fraction(2) ** e)
+        elif t == 2: z = anyp(n, rng) & (half - 1)
+        else: z = structured_posit(n, rng) & (half - 1)
+        if z == 0 or z >= half - 1: continue
+        mid = (to_rat(n, es, z) + to_rat(n, es, z + 1)) / 2
+        x0 = rnd(n, es, mid * mid)
+        for d in (0, 1, -1, 2, -2):
+            x = x0 + d
+            if 0 < x < half: out.append((x,))
+    return out[:count]
+
 def cases_for(ty, n, args, count, rng, TYPES, exhaustive_limit=1 << 16, op=''):
     """yield argument tuples for an op with the given arg kinds"""
     args = list(args)
@@ -386,6 +411,8 @@ def cases_for(ty, n, args, count, rng, TYPES, exhaustive_limit=1 << 16, op=''):
         if len(args) == 1:
             if n > 16 and op:
                 for t in target_boundaries(n, op, rng): yield t
+            if n > 16 and 'sqrt' in op.lower():
+                for t in neartie_sqrt(n, _ES[n], rng, min(3 * count, 120000)): yield t
             for a in interesting_posits(n, rng, count): yield (a,)
             return
         if len(args) == 2:
